@@ -7,7 +7,7 @@
 From Coq Require Import String List NArith ZArith Bool.
 From J5V.lib Require Import Text Outcome.
 From J5V.model Require Import BclLexer BclParser BclFmt.
-From J5V.proofs Require Import BclPosProofs BclLexerProofs BclParserProofs BclFmtProofs BclFmtLitProofs BclReflowProofs BclLexLitProofs BclFmtSeqProofs BclFragWfProofs.
+From J5V.proofs Require Import BclPosProofs BclLexerProofs BclParserProofs BclFmtProofs BclFmtLitProofs BclReflowProofs BclLexLitProofs BclFmtSeqProofs BclFragWfProofs BclFmtLineProofs.
 Import ListNotations.
 
 (* ---- the position-free document of a fragment list -------------------------------------------- *)
@@ -151,6 +151,17 @@ Theorem C09_fragments_renderable : forall data fs, collect_fragments data = Ok f
 Proof. exact collect_fragments_lx. Qed.
 Print Assumptions C09_fragments_renderable.
 
+(* line level: for every header, assignment, comment and closing brace the walker can build, the
+   line the formatter writes (indentation, the rendered tokens with the formatter's own spacing,
+   the trailing comment, the newline) is read back as exactly the tokens of that fragment followed
+   by the EOL: adjacent emitted tokens never fuse *)
+Theorem C09_line_relex : forall f n REST s,
+  frag_lx f -> (forall d, f <> FDesc d) ->
+  rest s = tabs n ++ frag_line_text f ++ 10%N :: REST ->
+  exists s', lex_run s (item_toks (frag_items f) ++ [(EOL, [10%N])]) s' /\ rest s' = REST.
+Proof. exact fragment_line_relex. Qed.
+Print Assumptions C09_line_relex.
+
 (* idempotence of the description re-flow (finding 22 lived here): feeding the re-flowed lines back
    gives the same lines, for every text and every width (also negative) *)
 Theorem C09_reflow_fixed_point : forall maxw input,
@@ -158,8 +169,9 @@ Theorem C09_reflow_fixed_point : forall maxw input,
 Proof. exact reflow_fixed_point. Qed.
 Print Assumptions C09_reflow_fixed_point.
 
-(* PARTIAL: C09_full_statement itself is not proved.  Missing: the fragment-level composition
-   (walk (lex (render fs)) = fs up to positions, from the literal and separation lemmas above),
+(* PARTIAL: C09_full_statement itself is not proved.  Missing: the lines of description blocks, the
+   concatenation of lines into the file, and the walker half of the round trip (walking the tokens
+   read back gives the same fragments up to positions),
    and that rendering is a normal form on its own image (idempotence of the whole formatter; the
    description re-flow part is C09_reflow_fixed_point).  Those clauses are evaluated on every run by the direct
    oracle (re-parse, document comparison, format twice) and the byte-exact correspondence of Fmt. *)
